@@ -29,7 +29,8 @@ open RotoV.ListConc
 /-- `List::get` and `ffi::list_get` clone the element while the guard under
     which they looked it up is alive (fails to check when the guard is
     released before the clone, as on the pinned tree), and `==` takes its two
-    mutexes in address order (fails to check for `self` then `other`) -/
+    mutexes in address order (fails to check for `self` then `other`), and
+    `concat` keeps both operands locked while it copies them -/
 theorem facts_guarded : RotoV.Gen.C16.facts = Facts.guarded := by decide
 
 /-- every other `ErasedList` method that touches the buffer is exactly one
@@ -44,7 +45,7 @@ theorem no_method_returns_a_pointer : RotoV.Gen.C16.methodShapes.lookup Method.g
 
 /-- `concat` and `==` take and release their locks in the order the model's
     steps assume -/
-theorem concat_trace_as_modelled : RotoV.Gen.C16.concatTrace = concatAsModelled := by decide
+theorem concat_trace_as_modelled : RotoV.Gen.C16.concatTrace = concatAtomicAsModelled := by decide
 theorem eq_trace_as_modelled :
     RotoV.Gen.C16.eqTrace = eqAsModelled ∧ RotoV.Gen.C16.eqPtrEqFirst = true := by decide
 
@@ -74,37 +75,25 @@ theorem no_stale_pointer_use (lists : List (List Nat)) (progs : List (List Op)) 
   exact hne d (List.mem_filter.1 hd).1 hdr
 
 /-- **T1 `atomic_ops_linearizable`.** For every number of threads, all programs
-    without `concat` and every schedule: the completed operations, *in the order
+    (all operations) and every schedule: the completed operations, *in the order
     in which they completed*, are a sequential execution of the shared-vector
     specification from the initial lists — same results, same final contents —
     and every thread's results are exactly its own operations' results in that
     order. (Completion order respects real-time order: see
     `completion_order_respects_real_time`.) -/
 theorem atomic_ops_linearizable (lists : List (List Nat)) (progs : List (List Op))
-    (hnc : ∀ p ∈ progs, ∀ op ∈ p, ∀ a b, op ≠ Op.concat a b)
     (sched : List Nat) (s' : State)
     (hrun : run RotoV.Gen.C16.facts (init lists progs) sched = some s') :
     specRun (abs (init lists progs)) (s'.hist.map (·.op)) = (s'.hist.map (·.res), abs s') ∧
     (∀ t, (s'.threads t).results = (s'.hist.filter (·.tid = t)).map (·.res)) := by
   have f := run_facts facts_guarded sched _ _ (inv_init lists progs) hrun
-  obtain ⟨ds, hds, _, hmem, hres, hsim⟩ := f.hist
+  obtain ⟨ds, hds, _, _, hres, hsim⟩ := f.hist
   have hh : s'.hist = ds := by simpa [init] using hds
   rw [hh]
-  refine ⟨hsim ?_, ?_⟩
-  · intro d hd a b
-    have hm := hmem d hd
-    simp only [init] at hm
-    by_cases hlt : d.tid < progs.length
-    · have : progs.getD d.tid [] = progs[d.tid] := by simp [List.getD, hlt]
-      rw [this] at hm
-      exact hnc _ (List.getElem_mem hlt) _ hm a b
-    · have : progs.getD d.tid [] = [] := by
-        simp [List.getD, List.getElem?_eq_none (Nat.le_of_not_lt hlt)]
-      rw [this] at hm
-      cases hm
-  · intro t
-    have := hres t
-    simpa [init] using this
+  refine ⟨hsim, ?_⟩
+  intro t
+  have := hres t
+  simpa [init] using this
 
 /-- The linearization order used by T1 respects real-time order: whatever
     completed during a prefix of the schedule comes, in the log, before
@@ -168,12 +157,13 @@ theorem ffi_get_as_written_use_after_free :
     resultsAfter Facts.asWritten [[1, 2, 3, 4]] [[.ffiGet 0 1], [.push 0 9]] [0, 1, 0]
       = some [[.uaf], [.unit]] := by decide
 
-/-- `concat` (as it is now: operands copied in two critical sections) is not
-    linearizable — not even sequentially consistent: `l.concat(l)` racing with
-    `l.push(7)` returns `[1,2,3,4,1,2,3,4,7]`, which no sequential order of the
-    two operations produces. Known finding C16-concat-two-critical-sections. -/
-theorem concat_not_linearizable :
-    resultsAfter RotoV.Gen.C16.facts [[1, 2, 3, 4]] [[.push 0 7], [.concat 0 0]] [1, 1, 0, 1]
+/-- `concat` as written on the pinned tree (operands copied in two critical
+    sections) is not linearizable — not even sequentially consistent:
+    `l.concat(l)` racing with `l.push(7)` returns `[1,2,3,4,1,2,3,4,7]`, which no
+    sequential order of the two operations produces. (Repaired by repo commit
+    88678af; replayed on the real code before it.) -/
+theorem concat_as_written_not_linearizable :
+    resultsAfter ⟨true, true, true, false⟩ [[1, 2, 3, 4]] [[.push 0 7], [.concat 0 0]] [1, 1, 0, 1]
       = some [[.unit], [.list [1, 2, 3, 4, 1, 2, 3, 4, 7]]] ∧
     seqConsistent [[1, 2, 3, 4]] [[.push 0 7], [.concat 0 0]]
       [[.unit], [.list [1, 2, 3, 4, 1, 2, 3, 4, 7]]] = false := by decide
@@ -182,8 +172,8 @@ theorem concat_not_linearizable :
     `b == a` deadlocks after one step each. (Repaired by repo commit 17d52d2:
     address-ordered locking; replayed on the real code before it.) -/
 theorem eq_as_written_opposite_order_deadlock :
-    (run ⟨true, true, false⟩ (init [[1], [2]] [[.eq 0 1], [.eq 1 0]]) [0, 1]).map
-      (deadlocked ⟨true, true, false⟩ 2) = some true := by decide
+    (run ⟨true, true, false, true⟩ (init [[1], [2]] [[.eq 0 1], [.eq 1 0]]) [0, 1]).map
+      (deadlocked ⟨true, true, false, true⟩ 2) = some true := by decide
 
 /-! ### non-vacuity -/
 
@@ -196,14 +186,17 @@ example : resultsAfter RotoV.Gen.C16.facts [[1, 2, 3, 4]] [[.get 0 1], [.push 0 
 example : ∃ s', run RotoV.Gen.C16.facts (init [[1, 2, 3, 4]] [[.ffiGet 0 1], [.push 0 9]]) [1, 0, 0]
     = some s' := by
   refine ⟨_, rfl⟩ <;> decide
-/-- the hypothesis of T1 is satisfiable and its conclusion non-trivial: a
-    two-thread program with six operations, none a concat -/
-example : (∀ p ∈ [[Op.get 0 1, .swap 0 0 1, .eq 0 1], [Op.push 0 9, .contains 0 2, .len 1]],
-    ∀ op ∈ p, ∀ a b, op ≠ Op.concat a b) := by
-  intro p hp op hop a b h
-  subst h
-  simp only [List.mem_cons, List.mem_nil_iff, or_false] at hp
-  rcases hp with rfl | rfl <;> simp at hop
+/-- T1 covers `concat`: the schedule that gives the impossible result as written
+    is no schedule any more (the push waits for the concat), and the others give
+    sequential results -/
+example : resultsAfter RotoV.Gen.C16.facts [[1, 2, 3, 4]] [[.push 0 7], [.concat 0 0]] [1, 1, 0, 1]
+    = none := by decide
+example : resultsAfter RotoV.Gen.C16.facts [[1, 2, 3, 4]] [[.push 0 7], [.concat 0 0]] [1, 1, 0]
+    = some [[.unit], [.list [1, 2, 3, 4, 1, 2, 3, 4]]] := by decide
+example : resultsAfter RotoV.Gen.C16.facts [[1], [2]] [[.concat 0 1], [.concat 1 0]] [0, 1, 0, 0, 1, 1, 1]
+    = none := by decide
+example : resultsAfter RotoV.Gen.C16.facts [[1], [2]] [[.concat 0 1], [.concat 1 0]] [0, 0, 0, 1, 1, 1]
+    = some [[.list [1, 2]], [.list [2, 1]]] := by decide
 example : seqConsistent [[1, 2, 3, 4]] [[.push 0 7], [.concat 0 0]]
     [[.unit], [.list [1, 2, 3, 4, 7, 1, 2, 3, 4, 7]]] = true := by decide
 example : Facts.asWritten ≠ Facts.guarded := by decide
